@@ -347,6 +347,8 @@ def main(tier, seed):
     for n in range(1, 4):
         for names in itertools.product(["root", "my folder", "ü&<b>", "li\u2028ne"], repeat=n):
             cases.append({"chain": list(names), "dev": ["chain"]})
+    cases.append({"chain": ["root"] * 12, "dev": ["chain"]})
+    cases.append({"chain": ["my folder"] * 101, "dev": ["chain"]})
     cps = legal_codepoints(0xFFFF if tier == "quick" else 0x10FFFF)
     for i in range(0, len(cps), 4096):
         cases.append({"cps": cps[i:i + 4096], "dev": ["codepoints"]})
